@@ -319,8 +319,13 @@ pub struct Old {
     pub version: &'static str,
     /// v1 layout: `ics20_config` = {default_timeout, gov_contract}, no admin item, no allow list
     pub v1: bool,
-    /// per token: amount already counted in CHANNEL_STATE of channel 0 (acknowledged sends)
+    /// per token: amount already counted in CHANNEL_STATE of the first channel (acknowledged sends)
     pub counted: Vec<(Tok, u128)>,
+    /// the same for the second channel (configurations with two channels in an old layout; the
+    /// real migration refuses those, which is fine: `may_refuse`)
+    pub counted_b: Vec<(Tok, u128)>,
+    /// a refused migration is not a finding for this storage (the property is one-directional here)
+    pub may_refuse: bool,
     /// sends in flight (escrowed, packet pending, not yet counted by the old logic): (user, token, amount)
     pub inflight: Vec<(u8, Tok, u128)>,
 }
@@ -418,7 +423,7 @@ impl Cfg {
             d.insert(t.denom());
         }
         if let Some(o) = &self.old {
-            for (t, _) in &o.counted {
+            for (t, _) in o.counted.iter().chain(o.counted_b.iter()) {
                 d.insert(t.denom());
             }
             for (_, t, _) in &o.inflight {
@@ -1022,21 +1027,26 @@ impl Ics20Model {
             let o = w.instantiate(ics_vt(), &ics, &actor(X), &to_json_vec(&msg).unwrap(), &[]);
             o.res.map_err(|e| format!("instantiate ics20: {e}"))?;
         }
-        // the old layouts support a single channel only (migration refuses more)
-        driver::open_channel(w, &ics, cfg.first_chan)?;
+        // (the real 0.13.0 -> current migration supports a single channel only and refuses more)
+        for ch in cfg.chans() {
+            driver::open_channel(w, &ics, ch)?;
+        }
         let inst = w.contracts.get_mut(&ics).unwrap();
         cw2::set_contract_version(&mut inst.store, "crates.io:cw20-ics20", old.version).map_err(|e| e.to_string())?;
-        for (t, x) in &old.counted {
-            CHANNEL_STATE
-                .save(
-                    &mut inst.store,
-                    (&local_chan(cfg.first_chan), &t.denom()),
-                    &ChannelState {
-                        outstanding: Uint128::new(*x),
-                        total_sent: Uint128::new(*x),
-                    },
-                )
-                .map_err(|e| e.to_string())?;
+        let per_chan = [(cfg.first_chan, &old.counted), (cfg.first_chan + 1, &old.counted_b)];
+        for (ch, list) in per_chan {
+            for (t, x) in list {
+                CHANNEL_STATE
+                    .save(
+                        &mut inst.store,
+                        (&local_chan(ch), &t.denom()),
+                        &ChannelState {
+                            outstanding: Uint128::new(*x),
+                            total_sent: Uint128::new(*x),
+                        },
+                    )
+                    .map_err(|e| e.to_string())?;
+            }
         }
         for (u, t, x) in &old.inflight {
             let p = Ics20Packet::new(Uint128::new(*x), t.denom(), &actor(*u), REMOTE_RCPT);
@@ -1054,7 +1064,7 @@ impl Ics20Model {
     /// what the ics20 contract really holds at the start of an old-layout configuration
     fn old_escrow(old: &Old) -> BTreeMap<Tok, u128> {
         let mut m: BTreeMap<Tok, u128> = BTreeMap::new();
-        for (t, x) in &old.counted {
+        for (t, x) in old.counted.iter().chain(old.counted_b.iter()) {
             *m.entry(*t).or_insert(0) += x;
         }
         for (_, t, x) in &old.inflight {
@@ -1253,10 +1263,21 @@ impl Model for Ics20Model {
                 }
                 // the truth the migration has to arrive at: everything escrowed on the single
                 // channel is outstanding (acknowledged sends + sends still in flight)
-                for (t, x) in &escrow {
-                    if *x > 0 {
-                        r.out.insert((cfg.first_chan, t.denom()), *x);
-                        r.credit.insert((cfg.first_chan, t.denom()), *x as i128);
+                // (sends in flight belong to the first channel; the second one, if any, keeps what it counted)
+                let mut per: BTreeMap<(u8, String), u128> = BTreeMap::new();
+                for (t, x) in &old.counted {
+                    *per.entry((cfg.first_chan, t.denom())).or_insert(0) += x;
+                }
+                for (_, t, x) in &old.inflight {
+                    *per.entry((cfg.first_chan, t.denom())).or_insert(0) += x;
+                }
+                for (t, x) in &old.counted_b {
+                    *per.entry((cfg.first_chan + 1, t.denom())).or_insert(0) += x;
+                }
+                for (k, x) in per {
+                    if x > 0 {
+                        r.credit.insert(k.clone(), x as i128);
+                        r.out.insert(k, x);
                     }
                 }
                 migrated = false;
@@ -1773,7 +1794,7 @@ impl Model for Ics20Model {
                     if post != *pre {
                         v.push(Violation::new("kernel.refused_call_changed_state", pre.diff(&post)));
                     }
-                    if !s.migrated && p.c12 {
+                    if !s.migrated && p.c12 && !cfg.old.as_ref().map(|o| o.may_refuse).unwrap_or(false) {
                         v.push(Violation::new(
                             "C12.supported_upgrade_path_migrates",
                             format!("migration from {:?} refused: {}", cfg.old.as_ref().map(|o| o.version), out.err()),
